@@ -168,3 +168,196 @@ def sign_test(test: ast.AST, polarity: bool = True) -> Optional[Tuple[ast.AST, s
     if pt is None:
         return None
     return (pt[0], pt[1] if polarity else _NEG[pt[1]])
+
+
+# =====================================================================================================================
+# structure of the recursive passes (shared by C02, C04, C07, C08, C09, C14)
+
+class PassShape:
+    """facts about one scheduler pass, extracted once; `problems` are (node, message) pairs found while extracting"""
+
+    def __init__(self, ctx, S):
+        from sa.flow import Expander, flow_of
+        self.ctx, self.S = ctx, S
+        prog = ctx.prog
+        self.f = f = prog.func(S['pass_'])
+        p = f.params
+        if len(p) < 5:
+            from sa.model import AnalysisError
+            raise AnalysisError(f"{f.qual}: expected parameters (self, task, bound, ledger, memo)")
+        self.task, self.bound, self.usage, self.memo = p[1], p[2], p[3], p[4]
+        self.ex = Expander(prog, f, ctx.typer)
+        self.fl = flow_of(f)
+        self.cfg = cfg_of(f)
+        self.rel = S['rel']                       # predecessors / successors
+        self.end_attr = 'end' if S['dir'] == 1 else 'start'      # field of a prerequisite that bounds the task
+        self.lat = S['lat']
+        self.pname = f.name
+        self._mangled_pname = '_' + S['cls'].lstrip('_') + f.name if f.name.startswith('__') else f.name
+
+    # ---- regions
+    def conds(self, node, expand=True):
+        return facts.node_conditions(self.ctx.prog, self.f, node, self.ctx.typer, expand=expand)
+
+    def region(self, node) -> Dict[str, object]:
+        """classify the path condition of a statement: milestone True/False, leaf True/False, none_of = {field: bool}"""
+        r = {'milestone': None, 'leaf': None, 'is_none': {}, 'other': []}
+        for t, pol in self.conds(node):
+            if match(f"{self.task}.milestone", t):
+                r['milestone'] = pol
+                continue
+            m = match(f"len({self.task}.children) == 0", t) or match(f"not {self.task}.children", t)
+            if m:
+                r['leaf'] = pol
+                continue
+            m = match(f"len({self.task}.children) > 0", t) or match(f"len({self.task}.children) != 0", t)
+            if m:
+                r['leaf'] = not pol
+                continue
+            m = match(f"{self.task}.$a is None", t)
+            if m:
+                r['is_none'][m['a']] = pol
+                continue
+            m = match(f"{self.task}.$a is not None", t)
+            if m:
+                r['is_none'][m['a']] = not pol
+                continue
+            if match(f"{self.task}.id in {self.memo}", t) and not pol:
+                continue
+            r['other'].append((t, pol))
+        return r
+
+    def stores(self, attr):
+        """[(stmt, target, value, region)] of stores to task.<attr> (property setters estimate/spent included)"""
+        out = []
+        for st, tgt, val in facts.attr_stores(self.f):
+            if tgt.attr == attr and isinstance(tgt.value, ast.Name) and tgt.value.id == self.task:
+                out.append((st, tgt, val, self.region(st)))
+        return out
+
+    # ---- recursive calls
+    def pass_calls(self):
+        out = []
+        for c in facts.calls_named(self.f, self.pname):
+            if isinstance(c.func, ast.Attribute) and isinstance(c.func.value, ast.Name) and c.func.value.id == self.f.params[0]:
+                out.append(c)
+        return out
+
+    def call_loop(self, c):
+        """(for statement, iterable expression) of the loop whose variable is the task argument of pass call c"""
+        fo = for_loop_of(self.f, c)
+        if fo is None or not c.args:
+            return None
+        if isinstance(fo.target, ast.Name) and isinstance(c.args[0], ast.Name) and c.args[0].id == fo.target.id:
+            return fo
+        return None
+
+    # ---- prerequisites
+    def prereq_term(self):
+        """(lattice call node in expanded form, comprehension argument over the prerequisite collection, other args)
+        taken from the value handed to the children recursion / used for milestones: the PE / SS term"""
+        # the statement that defines it: an assignment whose value is max/min over a comprehension of <x>.<end_attr>
+        for n in walk_no_nested(self.f.node):
+            if isinstance(n, ast.Assign) and len(n.targets) == 1 and isinstance(n.targets[0], ast.Name):
+                args = facts.flatten_lattice(n.value, self.lat)
+                other_lat = facts.flatten_lattice(n.value, 'min' if self.lat == 'max' else 'max')
+                for kind, a in (('ok', args), ('flipped', other_lat)):
+                    if not a:
+                        continue
+                    for x in a:
+                        parts = facts.comp_parts(x)
+                        if parts and match(f"$t.{self.end_attr}", parts[0]) and isinstance(parts[1], ast.Name) and \
+                                match("$t." + self.end_attr, parts[0])['t'].id == parts[1].id:
+                            return {'stmt': n, 'name': n.targets[0].id, 'args': a, 'comp': x, 'parts': parts, 'kind': kind}
+        return None
+
+    def collection_sources(self, iter_expr, at_node):
+        """which tasks the prerequisite collection ranges over.  Returns dict(own=bool, ancestors=bool, var=name or None,
+        defs=[...], filtered=[...], unknown=[...])"""
+        task, rel = self.task, self.rel
+        res = {'own': False, 'ancestors': False, 'var': None, 'defs': [], 'filtered': [], 'unknown': [], 'setlike': []}
+
+        def classify_seq(e, ctxvars):
+            """e is an expression yielding tasks: classify as own / ancestors(parent var) / unknown"""
+            e0 = e
+            if isinstance(e, ast.Call) and isinstance(e.func, ast.Name) and e.func.id in ('list', 'tuple') and len(e.args) == 1:
+                e = e.args[0]
+            if isinstance(e, ast.Call) and isinstance(e.func, ast.Name) and e.func.id in ('set', 'frozenset'):
+                res['setlike'].append(e0)
+                e = e.args[0] if e.args else e
+            parts = facts.comp_parts(e)
+            if isinstance(e, ast.SetComp):
+                res['setlike'].append(e0)
+            if parts:
+                elt, tgt, it, ifs = parts
+                if not (isinstance(elt, ast.Name) and isinstance(tgt, ast.Name) and elt.id == tgt.id):
+                    res['unknown'].append(e0)
+                    return
+                if ifs:
+                    res['filtered'].append(e0)
+                e = it
+            if match(f"{task}.{rel}", e):
+                res['own'] = True
+            elif isinstance(e, ast.Attribute) and e.attr == rel and isinstance(e.value, ast.Name) and e.value.id in ctxvars:
+                res['ancestors'] = ctxvars[e.value.id]
+            elif isinstance(e, (ast.List, ast.Tuple)) and not e.elts:
+                pass
+            elif isinstance(e, ast.BinOp) and isinstance(e.op, ast.Add):
+                classify_seq(e.left, ctxvars)
+                classify_seq(e.right, ctxvars)
+            else:
+                res['unknown'].append(e0)
+
+        if not isinstance(iter_expr, ast.Name):
+            classify_seq(iter_expr, {})
+            return res
+        var = iter_expr.id
+        res['var'] = var
+        defs = self.fl.reaching(var, at_node)
+        res['defs'] = defs
+        for d in defs:
+            if d.kind == 'assign' and d.value is not None:
+                classify_seq(d.value, {})
+            elif d.kind == 'aug':
+                if not isinstance(d.stmt.op, ast.Add):
+                    res['unknown'].append(d.stmt)
+                    continue
+                # enclosing loop over the ancestors of the task
+                loops = self.cfg.enclosing_fors(d.node)
+                ctxvars = {}
+                for fo in loops:
+                    if isinstance(fo.target, ast.Name):
+                        it = self.ex.expand(fo.iter, self.cfg.node_of(fo))
+                        if match(f"{task}.all_parents", it) or match(f"list({task}.all_parents)", it) or \
+                                match(f"[$x for $x in {task}.all_parents]", it):
+                            ctxvars[fo.target.id] = 'all'
+                        elif match(f"[{task}.parent]", it):
+                            ctxvars[fo.target.id] = 'direct-parent-only'
+                        else:
+                            ctxvars[fo.target.id] = 'unknown:' + src(it)
+                classify_seq(d.stmt.value, ctxvars)
+            elif d.kind == 'param':
+                res['unknown'].append(ast.Name(id=var))
+            else:
+                res['unknown'].append(d.stmt)
+        # in-place growth: var.extend(...) / var.append(...) / var.update / var.add
+        for n in walk_no_nested(self.f.node):
+            if isinstance(n, ast.Call) and isinstance(n.func, ast.Attribute) and isinstance(n.func.value, ast.Name) and \
+                    n.func.value.id == var and n.func.attr in ('extend', 'append', 'update', 'add', 'insert') and n.args:
+                cn = self.cfg.node_containing(n)
+                loops = self.cfg.enclosing_fors(cn) if cn is not None else []
+                ctxvars = {}
+                for fo in loops:
+                    if isinstance(fo.target, ast.Name):
+                        it = self.ex.expand(fo.iter, self.cfg.node_of(fo))
+                        ctxvars[fo.target.id] = 'all' if (match(f"{task}.all_parents", it) or match(f"list({task}.all_parents)", it)) \
+                            else 'unknown:' + src(it)
+                if n.func.attr in ('update', 'add'):
+                    res['setlike'].append(n)
+                a = n.args[-1]
+                if n.func.attr in ('append', 'add', 'insert'):
+                    res['unknown'].append(n)      # single element insertion: not a recognised collection idiom
+                else:
+                    classify_seq(a, ctxvars)
+                res['defs'].append(n)
+        return res
